@@ -6,10 +6,10 @@ WT=$1; X=$2; CL=${3:-}
 x=$(echo $X | tr 'A-Z' 'a-z')
 cd $WT || exit 2
 git checkout -q -- src Cargo.toml
-cp -f SEEDED/demo_$x.rs examples/demo_$x.rs 2>/dev/null
+cp -f ${SEEDDIR:-SEEDED}/demo_$x.rs examples/demo_$x.rs 2>/dev/null
 FEAT=""; [ -n "$CL" ] && FEAT="--release --features cl03" && export GMP_MPFR_SYS_CACHE=/tmp/gmp-cache
 cargo run -q --offline $FEAT --example demo_$x >/dev/null 2>&1; base=$?
-git apply SEEDED/$X.diff || { echo "$WT $X: diff does not apply"; exit 1; }
+git apply ${SEEDDIR:-SEEDED}/$X.diff || { echo "$WT $X: diff does not apply"; exit 1; }
 suite=$(cargo test --workspace --no-fail-fast --offline 2>&1 | grep -E '^test result' | head -1)
 cargo run -q --offline $FEAT --example demo_$x >/dev/null 2>&1; mut=$?
 git checkout -q -- src Cargo.toml
